@@ -361,5 +361,71 @@ class _Engine:
     def components():
         return seams.report()
 
+    @staticmethod
+    def extra_coverage(prop, seed, tier, total):
+        """Thorough tier: 16 worlds re-fitted in fresh interpreters under 4 real PYTHONHASHSEED values
+        with the real multiprocessing.Pool (n_jobs=2); digests must equal the simulated reference."""
+        _ = total
+        if tier != "thorough":
+            return {"stub_cross_check": "thorough tier only"}
+        return stub_cross_check(prop, seed, tier, n_worlds=16, hashseeds=(1, 77, 4242, 987654))
+
+
+def stub_cross_check(prop, seed, tier, n_worlds, hashseeds):
+    import json  # pylint: disable=C0415
+    import os  # pylint: disable=C0415
+    import shutil  # pylint: disable=C0415
+    import subprocess  # pylint: disable=C0415
+    import sys  # pylint: disable=C0415
+    import tempfile  # pylint: disable=C0415
+
+    from .realcheck import reference_digest  # pylint: disable=C0415
+
+    here = os.path.dirname(os.path.dirname(os.path.abspath(__file__)))
+    scratch = tempfile.mkdtemp(prefix="acsim_real_")
+    checked, mismatches, skipped = 0, [], 0
+    try:
+        idx = 0
+        while checked < n_worlds and idx < 400:
+            spec = generate(prop, seed, idx, tier)
+            idx += 1
+            with seams.scheduling(seams.Scheduler(mode="identity")):
+                ref = reference_digest(spec["world"], 1, install_seams=True)
+            if not isinstance(ref, tuple):
+                skipped += 1
+                continue
+            path = os.path.join(scratch, f"spec{idx}.json")
+            with open(path, "w", encoding="utf-8") as fobj:
+                json.dump({"world": spec["world"]}, fobj)
+            for hs in hashseeds:
+                env = dict(os.environ, PYTHONHASHSEED=str(hs), VERIF_NO_REEXEC="1")
+                proc = subprocess.run(
+                    [sys.executable, "-m", "acsim.realcheck", path, "fit", "2"],
+                    capture_output=True, text=True, env=env, cwd=here, timeout=600, check=False,
+                )
+                got = None
+                for line in reversed(proc.stdout.splitlines()):
+                    if line.startswith("{"):
+                        got = json.loads(line)["digest"]
+                        break
+                if got != ref[0]:
+                    mismatches.append({"run": idx - 1, "hashseed": hs, "simulated": ref[0], "real": got, "stderr": proc.stderr[-300:]})
+            checked += 1
+    finally:
+        shutil.rmtree(scratch, ignore_errors=True)
+    out = {
+        "stub_cross_check": {
+            "label": "real, uncontrolled schedule (real multiprocessing.Pool n_jobs=2, real PYTHONHASHSEED values, fresh interpreters) - stub cross-check, not a simulated run",
+            "worlds": checked,
+            "hashseeds": list(hashseeds),
+            "executions": checked * len(hashseeds),
+            "skipped_worlds_rejected_at_fit": skipped,
+            "mismatches": mismatches,
+        }
+    }
+    if mismatches:
+        out["_mismatch"] = True
+    return out
+
 
 ENGINE = _Engine()
